@@ -29,6 +29,8 @@ def replay(ctx, data):
 TECHNIQUE = "Lean 4: per-process bookkeeping invariant preserved by every operation (induction over histories), reap-loop lemmas over the daemon model; the daemon model is run against the unmodified runforever() over a simulated kernel"
 LEVEL_TEXT = ("state_pid_agree (pid and reported state agree after every history), no_fork_with_child, fork_registers, reap_clears and the reap-loop "
               "theorems (at most 100 per invocation, unknown pids change nothing, an exit goes to the owner recorded at fork time) are proved for all "
-              "histories/environments; Model/Sup.lean is checked against the real main loop pass by pass")
-LEVEL_NOTE = "trusts Lean's kernel, extract.py, the simulated kernel's fidelity to Linux; the daemon-level invariant pidhistory = {pid of each process with a child} is checked by the monitor on every boundary, its Lean proof covers the reap loop and per-process steps"
+              "histories/environments; daemon_bookkeeping (+ held_pid_recorded, no_two_processes_share_a_pid, state_pid_agree_daemon, pidhistory_wellformed): "
+              "the process table and pidhistory agree at every main-loop boundary, for every sequence of passes, RPCs (incl. group add/remove) and "
+              "environment answers (induction over passes); Model/Sup.lean is checked against the real main loop pass by pass")
+LEVEL_NOTE = "trusts Lean's kernel, extract.py, the simulated kernel's fidelity to Linux; fork() is assumed never to return a pid that is still in pidhistory (the kernel's contract; enforced in the model's environment: popSpawn/spawnFresh); what the API reports (getAllProcessInfo) is compared with the process objects by the monitor"
 DESIGN_REF = "DESIGN.md section 6, C02"
